@@ -5,6 +5,8 @@ import (
 	"fmt"
 	"io"
 	"reflect"
+	"sort"
+	"strings"
 
 	"github.com/maruel/panicparse/v2/stack"
 
@@ -338,7 +340,7 @@ func checkC10Loop(c *Case, cov *Cov) []*Violation {
 func RunC10(r *core.Rng, run uint64, seed uint64, tier string, cov *Cov) []*Violation {
 	cfg := gen.DefaultCfg(r)
 	cfg.MinDumps, cfg.MaxDumps = 1, 1
-	cfg.Long, cfg.VeryLong = false, false
+	cfg.Long, cfg.VeryLong = r.Chance(0.06), false
 	if cfg.MaxJunk > 2 {
 		cfg.MaxJunk = 2
 	}
@@ -346,6 +348,16 @@ func RunC10(r *core.Rng, run uint64, seed uint64, tier string, cov *Cov) []*Viol
 		cfg.MinDumps, cfg.MaxDumps = 0, 0
 	}
 	doc := gen.Generate(r, cfg)
+	if r.Chance(0.05) {
+		// a pass-through line longer than the 16 KiB buffer in front of the dump
+		// (non-repeating content, so that a lost piece is visible)
+		n := []int{16384, 32768, 49152}[r.Intn(3)] + r.Range(-2, 4000)
+		var sb strings.Builder
+		for i := 0; sb.Len() < n; i++ {
+			fmt.Fprintf(&sb, "%d,", i)
+		}
+		doc.Items = append([]gen.Item{{Kind: "junk", Text: "L:" + sb.String()[:n] + "$\n"}}, doc.Items...)
+	}
 	s := gen.Render(doc)
 	b := s.Bytes
 	nameArgs := r.Chance(0.5)
@@ -364,7 +376,43 @@ func RunC10(r *core.Rng, run uint64, seed uint64, tier string, cov *Cov) []*Viol
 	var vs []*Violation
 	seen := map[string]bool{}
 	hasDump := len(s.Dumps) > 0
-	for k := 0; k <= len(b); k++ {
+	// every offset; for streams with lines around the 16 KiB buffer size the
+	// inside of those lines is sampled (around 16384*m and at random)
+	offsets := make([]int, 0, len(b)+1)
+	if len(b) <= 8192 {
+		for k := 0; k <= len(b); k++ {
+			offsets = append(offsets, k)
+		}
+	} else {
+		cov.Probe("long-line-stream")
+		for _, l := range s.Lines {
+			if l.End-l.Start <= 600 {
+				for k := l.Start; k < l.End; k++ {
+					offsets = append(offsets, k)
+				}
+				continue
+			}
+			for k := l.Start; k < l.Start+40; k++ {
+				offsets = append(offsets, k)
+			}
+			for m := 16384; m < l.End-l.Start+4; m += 16384 {
+				for d := -3; d <= 3; d++ {
+					if k := l.Start + m + d; k > l.Start+40 && k < l.End-40 {
+						offsets = append(offsets, k)
+					}
+				}
+			}
+			for i := 0; i < 60; i++ {
+				offsets = append(offsets, r.Range(l.Start+40, l.End-41))
+			}
+			for k := l.End - 40; k < l.End; k++ {
+				offsets = append(offsets, k)
+			}
+		}
+		offsets = append(offsets, len(b))
+		sort.Ints(offsets)
+	}
+	for _, k := range offsets {
 		for _, kind := range []string{"close", "fail"} {
 			for _, with := range []bool{false, true} {
 				for di, pre := range []iosim.Schedule{{}, chunked} {
